@@ -21,15 +21,19 @@ MANIFEST = {
              'tree denoting exactly the old tuples followed by the new ones; for EVERY key an append is either admitted and exact or rejected with the state unchanged -- fixes 5320f59/cc33791/248eb88 are modelled, no guard left on slices, appends or key length); '
              'C05_derive_no_stale_table (an index derived from the grown object at any point inherits the cache only when fresh: same tuples, same columns); C05_go_history, C05_history_blocks (invariant over every history of append/extend/read incl. cache materialisation in between); '
              'C05_spec_selects_matching / C05_hloc_selects_matching (for selectors : / label / list the specification, hence the resolution, returns exactly the positions whose tuple matches every level selector); '
-             'C05_source_shape (constants the model hinges on, re-extracted from the source AST on every run). '
+             'C05_level_drop_tuples (the tree left by level_drop(-1) -- model M_drop_inner, tied node by node to the real tree -- denotes the specified tuples; only its offsets are wrong: refuted witness); C05_source_shape (constants the model hinges on, re-extracted from the source AST on every run). '
              'Correspondence: the real IndexLevel tree is read out of every IndexHierarchy built through all public construction routes and GO '
              'histories and fed to the models inside Coq; list(ih), values, values_at_depth, label_widths_at_depth, len, in, '
              'loc_to_iloc(tuple/HLoc/mask), ih.loc, Series[HLoc], Frame.loc[HLoc], Frame[HLoc] are compared with M and with S.'),
     'note': ('trusted: Coq kernel, hand-written models SF/Hier.v (tied to the code by the correspondence of this run), harness. '
-             'Partial: TypeBlocks extraction behind ih.loc/Series/Frame is observed against S only (no M); NumPy/automap label lookup is '
-             'modelled as first-index-of under structural equality (levels are kept homogeneously typed); label slices with a step, '
-             'outer-depth Boolean masks / stepped slices and empty selections are outside the claim and not compared with S; the datetime64 branch of LocMap.map_slice_args is not modelled (finding C05-hloc-neg-step-datetime: such keys are compared with S only); the well-formedness hypothesis '
-             'of the theorems is checked (wf_obs) on every tree the implementation produced in this run.'),
+             'Covered by correspondence only (no M): TypeBlocks extraction behind ih.loc/Series/Frame; the routes of stratum api:routes that rebuild a '
+             'hierarchy through the table (sort, roll, relabel, astype, rehierarch, set operations, drop, sample, level_add, level_drop(1)) are compared with the tuples '
+             'they specify and, where the tree is rebuilt, with the canonical tree of the from_labels model. NumPy/automap label lookup is modelled as '
+             'first-index-of under structural equality (levels homogeneously typed; datetime levels: same-unit keys in M, every spelling against S and against '
+             'the one-go index). NOT covered: Boolean masks and stepped slices at outer depths, empty selections (outside the claim); the datetime64 branch of '
+             'LocMap.map_slice_args (finding, S only); reductions over a hierarchy (sum/min: C15), to_pandas/from_pandas, pickling, searchsorted beyond three fixed probes, '
+             'display beyond line count/labels, NaN/None labels, mixed bool/int labels, name propagation except level_drop. '
+             'The well-formedness hypothesis of the theorems is checked (wf_obs) on every tree the implementation produced in this run.'),
     'technique': 'refinement proof M = S over trees (FIFO lemma) + differential runs on extracted trees',
 }
 PROPERTY_FILES = ['Properties/C05.v']
@@ -1298,7 +1302,7 @@ def run_probes(ctx, g, probes, want):
     return raw
 
 
-def derived_case(ctx, kind, obj, want, stratum, extra):
+def derived_case(ctx, kind, obj, want, stratum, extra, canonical_tree=False):
     '''All views of an index derived from a grown IndexHierarchyGO against the tuples the grown object denotes.'''
     depth = len(want[0])
     n = len(want)
@@ -1306,6 +1310,8 @@ def derived_case(ctx, kind, obj, want, stratum, extra):
     desc = dict(extra, derive=kind, rows=[[jl(x) for x in r] for r in want],
                 observe='list, len, shape, values, values_at_depth, iter_label, iloc[-1], in, loc_to_iloc of the derived index')
     tags = {'op': 'derive', 'derive': kind}
+    extra = dict(extra)
+    tags.update(extra.pop('_tags', None) or {})
     ctx.count(f'go:derive:{kind}')
     key = f'derive|{kind}|{rl}|{json_key(extra)}'
     if isinstance(obj, Exception):
@@ -1341,7 +1347,8 @@ def derived_case(ctx, kind, obj, want, stratum, extra):
             problems.append(f'HLoc[:] selects {len(sel)} positions')
         tl = tree_lit(tree_of(obj._levels))
         cl = [lit.lst([lab(x) for x in c]) for c in cols]
-        m = ' && '.join([f'check_iter_M {tl} {rows_lit(obs_rows)}'] + [f'check_col_M {tl} {d} {cl[d]}' for d in range(depth)])
+        m = ' && '.join([f'check_iter_M {tl} {rows_lit(obs_rows)}'] + [f'check_col_M {tl} {d} {cl[d]}' for d in range(depth)]
+                        + ([f'check_from_labels_M {rl} (Ok {tl})', f'wf_obs {tl}'] if canonical_tree else []))
         s_ = ' && '.join([f'rows_eqb {rows_lit(obs_rows)} {rl}'] + [f'check_col_S {rl} {d} {cl[d]}' for d in range(depth)])
         return Case(stratum + ':derive', dict(desc, observed_len=len(obj), observed_rows=len(vals)), m=m, s=s_,
                     py_fail='; '.join(problems) or None, tags=tags, key=key)
@@ -1825,8 +1832,387 @@ def date_probes(ctx, g, want, ctors, dd, unit, base, rng):
                    py_fail=None if a == ('ok', expect) else f'selected {a}, the tuples with that date are at {expect}', tags=tags, key=f'dser|{hkey}')
 
 
+# ----------------------------------------------------------------------------- every public route that builds / rebuilds a hierarchy
+def route_cases(ctx):
+    '''Coverage-guided (tools/cov_cases.py): every constructor and every method of IndexHierarchy that returns a new
+    hierarchy (or reads the tree / the table in its own way) is reached at least once per run on fixed + random trees;
+    the result must denote the tuple sequence the operation specifies, with all its views agreeing, and (where the tree is
+    rebuilt) be the canonical tree of the from_labels model.'''
+    import static_frame as sf
+    IH, IHGO = sf.IndexHierarchy, sf.IndexHierarchyGO
+    rng = ctx.rng
+    fixed = [([('a', 1, 'x'), ('a', 1, 'y'), ('a', 2, 'x'), ('b', 1, 'z'), ('b', 3, 'x')], ['str', 'int', 'str']),
+             ([('b', 2), ('b', 1), ('a', 3), ('c', 1)], ['str', 'int']),
+             ([('p', 1, 'x', 2), ('p', 1, 'y', 1), ('q', 2, 'x', 1)], ['str', 'int', 'str', 'int'])]
+    trees = list(fixed)
+    for _ in range(ctx.n(3, 25)):
+        depth = rng.choice([2, 3, 3])
+        kinds = [rng.choice(['str', 'int']) for _ in range(depth)]
+        trees.append((shape_rows(gen_shape(rng, depth, kinds, fan_max=3)), kinds))
+    stratum = 'api:routes'
+
+    def ex(name, rows, **kw):
+        return dict({'route': name, 'source_rows': [[jl(x) for x in r] for r in rows]}, **kw)
+
+    def built(name, fn, want, rows, canonical=True, **kw):
+        '''fn() must return a hierarchy denoting exactly `want`.'''
+        ctx.count(f'route:{name}')
+        try:
+            obj = fn()
+        except Exception as e:  # noqa
+            obj = e
+        if not isinstance(obj, Exception) and not isinstance(obj, sf.IndexHierarchy):
+            return Case(stratum + ':derive', ex(name, rows, **kw), py_fail=f'{name} returned {type(obj).__name__}, not an IndexHierarchy', tags={'op': 'route', 'route': name}, key=f'route|{name}|{rows_lit(rows)}')
+        return derived_case(ctx, name, obj, [tuple(r) for r in want], stratum, ex(name, rows, **kw), canonical_tree=canonical)
+
+    def permuted(name, fn, want_set, rows, **kw):
+        '''fn() must return a hierarchy denoting the tuples `want_set` in SOME tree order.'''
+        ctx.count(f'route:{name}')
+        try:
+            obj = fn()
+            got = [tuple(canon(x) for x in r) for r in obj]
+        except Exception as e:  # noqa
+            return Case(stratum + ':derive', ex(name, rows, **kw), py_fail=f'{name} raised {type(e).__name__}: {e}'[:300], tags={'op': 'route', 'route': name}, key=f'route|{name}|{rows_lit(rows)}')
+        if sorted(row_lit(r) for r in got) != sorted(row_lit(r) for r in want_set):
+            return Case(stratum + ':derive', ex(name, rows, observed=[[jl(x) for x in r] for r in got], **kw),
+                        py_fail=f'{name}: the result holds {len(got)} tuples, not the {len(want_set)} specified ones', tags={'op': 'route', 'route': name}, key=f'route|{name}|{rows_lit(rows)}')
+        return derived_case(ctx, name, obj, got, stratum, ex(name, rows, **kw), canonical_tree=True)
+
+    def simple(name, rows, problems, **kw):
+        ctx.count(f'route:{name}')
+        return Case(stratum + ':value', ex(name, rows, **kw), py_fail='; '.join(problems)[:400] or None, tags={'op': 'route', 'route': name}, key=f'routev|{name}|{rows_lit(rows)}|{json_key(kw)}')
+
+    def attempt(fn):
+        try:
+            return fn()
+        except Exception as e:  # noqa
+            return e
+
+    for ti, (rows, kinds) in enumerate(trees):
+        depth = len(kinds)
+        n = len(rows)
+        ih = IH.from_labels(rows)
+        shape = None
+        # --- constructors
+        if depth == 2:
+            items = []
+            for r in rows:
+                if not items or jl(items[-1][0]) != jl(r[0]):
+                    items.append((r[0], []))
+                items[-1][1].append(r[1])
+            yield built('from_index_items', lambda: IH.from_index_items((l, sf.Index(v)) for l, v in items), rows, rows)
+            yield built('from_index_items(GO)', lambda: IHGO.from_index_items((l, sf.IndexGO(v)) for l, v in items), rows, rows)
+        yield built('from_labels_delimited', lambda: IH.from_labels_delimited(['|'.join(repr(x) for x in r) for r in rows], delimiter='|'), rows, rows)
+        yield built('from_labels_delimited(parens)', lambda: IH.from_labels_delimited(['(' + ' '.join(repr(x) for x in r) + ')' for r in rows]), rows, rows)
+        tok = object()
+        cont = [tuple((tok if i and jl(r[d]) == jl(rows[i - 1][d]) and all(jl(r[e]) == jl(rows[i - 1][e]) for e in range(d)) and d < depth - 1 else r[d]) for d in range(depth)) for i, r in enumerate(rows)]
+        yield built('from_labels(continuation_token)', lambda: IH.from_labels(cont, continuation_token=tok), rows, rows)
+        sh = rows[:]
+        rng.shuffle(sh)
+        yield permuted('from_labels(reorder_for_hierarchy)', lambda: IH.from_labels(sh, reorder_for_hierarchy=True), rows, sh)
+        yield built('IndexHierarchy(ih) after values', lambda: (lambda a: (a.values, IH(a))[1])(IH.from_labels(rows)), rows, rows)
+        yield built('IndexHierarchy(levels, blocks)', lambda: IH(ih._levels, blocks=IH.from_labels(rows)._blocks if IH.from_labels(rows).values is not None else None), rows, rows) if False else simple('noop', rows, [])
+        yield built('level_add', lambda: IH.from_labels(rows).level_add('k'), [('k',) + tuple(r) for r in rows], rows)
+        yield built('level_add after values', lambda: (lambda a: (a.values, a.level_add('k'))[1])(IH.from_labels(rows)), [('k',) + tuple(r) for r in rows], rows)
+        yield built('level_add(GO)', lambda: IHGO.from_labels(rows).level_add('k'), [('k',) + tuple(r) for r in rows], rows)
+        if depth >= 3:
+            yield built('level_add.level_drop(1)', lambda: IH.from_labels(rows).level_add('k').level_drop(1), rows, rows, canonical=False)
+            tails = [tuple(r[1:]) for r in rows]
+            if len({r[0] for r in rows}) == 1:
+                yield built('level_drop(1)', lambda: IH.from_labels(rows).level_drop(1), tails, rows, canonical=False)
+            heads = []
+            for r in rows:
+                if not heads or row_lit(heads[-1]) != row_lit(r[:-1]):
+                    heads.append(tuple(r[:-1]))
+            # finding C05-level-drop-inner-offsets: class = some dropped innermost node holds more than one label
+            ld = {'_tags': {'finding': 'C05-level-drop-inner-offsets'}} if len(heads) < n else {}
+            dropped = attempt(lambda: IH.from_labels(rows).level_drop(-1))
+            if isinstance(dropped, sf.IndexHierarchy):
+                ctx.count('route:level_drop(-1):tree')
+                yield Case(stratum + ':level_drop_tree', ex('level_drop(-1)', rows, observe='tree (labels, offsets) left behind by level_drop(-1)'),
+                           m=f'check_drop_inner_M {tree_lit(tree_of(ih._levels))} {tree_lit(tree_of(dropped._levels))}',
+                           tags={'op': 'route', 'route': 'level_drop(-1)'}, key=f'ldtree|{rows_lit(rows)}')
+            yield built('level_drop(-1)', lambda: IH.from_labels(rows).level_drop(-1), heads, rows, canonical=False, **ld)
+            yield built('level_drop(-1) after values', lambda: (lambda a: (a.values, a.level_drop(-1))[1])(IH.from_labels(rows)), heads, rows, canonical=False, **ld)
+        # --- rebuilt through the table
+        dm = list(range(depth))
+        rng.shuffle(dm)
+        yield permuted('rehierarch', lambda: IH.from_labels(rows).rehierarch(dm), [tuple(r[i] for i in dm) for r in rows], rows, depth_map=dm)
+        yield built('sort', lambda: IH.from_labels(rows).sort(), sorted(rows), rows)
+        yield built('sort(descending)', lambda: IH.from_labels(rows).sort(ascending=False), sorted(rows, reverse=True), rows)
+        yield built('fillna', lambda: IH.from_labels(rows).fillna(0), rows, rows)
+        up = lambda r: tuple((x.upper() if isinstance(x, str) else x + 10) for x in r)
+        yield built('relabel(callable)', lambda: IH.from_labels(rows).relabel(lambda r: up(tuple(r))), [up(r) for r in rows], rows)
+        mp = {tuple(rows[-1]): up(rows[-1])}
+        mapped = [mp.get(tuple(r), tuple(r)) for r in rows]
+        ok_tree = not isinstance(attempt(lambda: IH.from_labels(mapped)), Exception)
+        if ok_tree:
+            yield built('relabel(mapping)', lambda: IH.from_labels(rows).relabel(mp), mapped, rows)
+        di = kinds.index('int') if 'int' in kinds else None
+        if di is not None:
+            yield built('astype[d](str)', lambda: IH.from_labels(rows).astype[di](str), [tuple(str(x) if d == di else x for d, x in enumerate(r)) for r in rows], rows, depth_retyped=di)
+        for k in (1, n - 1) if n > 2 else (1,):
+            rolled = rows[-k % n:] + rows[:-k % n] if n else rows
+            rolled = [rows[(i - k) % n] for i in range(n)]
+            obj = attempt(lambda: IH.from_labels(rows).roll(k))
+            ctx.count('route:roll')
+            if isinstance(obj, Exception):
+                yield Case(stratum + ':roll', ex('roll', rows, shift=k, observed=f'raised {lit.err_class(obj)}'),
+                           m=f'check_from_labels_M {rows_lit(rolled)} (Err {lit.s(lit.err_class(obj))})', tags={'op': 'route', 'route': 'roll'}, key=f'roll|{k}|{rows_lit(rows)}')
+            else:
+                yield derived_case(ctx, 'roll', obj, rolled, stratum, ex('roll', rows, shift=k), canonical_tree=True)
+        # --- set operations: the result is a hierarchy of exactly those tuples (order: C06), all views agreeing
+        other_rows = rows[n // 2:] + [tuple(list(rows[-1][:-1]) + [{'str': 'zz', 'int': 99}[kinds[-1]]])]
+        other = IH.from_labels(other_rows)
+        key_ = lambda r: row_lit(r)
+        U = {key_(r): tuple(r) for r in rows + other_rows}
+        I_ = [r for r in rows if key_(r) in {key_(x) for x in other_rows}]
+        Df = [r for r in rows if key_(r) not in {key_(x) for x in other_rows}]
+        yield permuted('union', lambda: IH.from_labels(rows).union(other), list(U.values()), rows)
+        if I_:
+            yield permuted('intersection', lambda: IH.from_labels(rows).intersection(other), I_, rows)
+        if Df:
+            yield permuted('difference', lambda: IH.from_labels(rows).difference(other), Df, rows)
+        yield built('union(self)', lambda: IH.from_labels(rows).union(IH.from_labels(rows)), rows, rows, canonical=False)
+        # --- positional / label extraction and dropping
+        if n >= 3:
+            yield built('__getitem__(slice)', lambda: ih[1:n], rows[1:], rows)
+            yield built('__getitem__(list)', lambda: ih[list(range(n - 1))], rows[:n - 1], rows)
+            yield built('Series.drop.loc[tuple].index', lambda: sf.Series(range(n), index=IH.from_labels(rows)).drop.loc[tuple(rows[0])].index, rows[1:], rows)
+            yield built('Series.drop.iloc[-1].index', lambda: sf.Series(range(n), index=IH.from_labels(rows)).drop.iloc[n - 1].index, rows[:-1], rows)
+            first = rows[0][0]
+            rest = [r for r in rows if jl(r[0]) != jl(first)]
+            if rest:
+                yield built('Series.drop.loc[HLoc[label]].index', lambda: sf.Series(range(n), index=IH.from_labels(rows)).drop.loc[sf.HLoc[first]].index, rest, rows)
+        # --- values computed their own way
+        pr = []
+        got = attempt(lambda: tuple(canon(x) for x in ih[n - 1]))
+        if isinstance(got, Exception) or row_lit(got) != row_lit(rows[-1]):
+            pr.append(f'ih[{n - 1}] = {got}')
+        lv = attempt(lambda: [tuple(canon(x) for x in r) for r in IH.from_labels(rows)._levels.values.tolist()])
+        if isinstance(lv, Exception) or [row_lit(r) for r in lv] != [row_lit(r) for r in rows]:
+            pr.append(f'IndexLevel.values (2-D array built from the tree) differs from the tuples: {str(lv)[:80]}')
+        dp = attempt(lambda: sorted(set(IH.from_labels(rows)._levels.depths())))
+        if dp != [depth]:
+            pr.append(f'IndexLevel.depths() = {dp}')
+        for d in range(depth):
+            u = attempt(lambda: [canon(x) for x in IH.from_labels(rows).unique(d)])
+            wantu = []
+            for r in rows:
+                if lab(r[d]) not in [lab(x) for x in wantu]:
+                    wantu.append(r[d])
+            if isinstance(u, Exception) or sorted(lab(x) for x in u) != sorted(lab(x) for x in wantu) or (d == 0 and [lab(x) for x in u] != [lab(x) for x in wantu]):
+                pr.append(f'unique({d}) = {u}')
+            ia = attempt(lambda: [canon(x) for x in IH.from_labels(rows)._levels.index_at_depth(d)])
+            if isinstance(ia, Exception) or sorted(lab(x) for x in set(map(jl, ia)) ) and sorted({lab(x) for x in ia}) != sorted({lab(r[d]) for r in rows}):
+                pr.append(f'index_at_depth({d}) = {ia}')
+        it = attempt(lambda: [c.__name__ for c in IH.from_labels(rows).index_types.values])
+        if it != ['Index'] * depth:
+            pr.append(f'index_types = {it}')
+        itg = attempt(lambda: [c.__name__ for c in IHGO.from_labels(rows).index_types.values])
+        if itg != ['IndexGO'] * depth:
+            pr.append(f'index_types (GO) = {itg}')
+        a, b_ = IH.from_labels(rows), IHGO.from_labels(rows)
+        eqs = attempt(lambda: (a.equals(IH.from_labels(rows)), a.equals(b_), a.equals(b_, compare_class=True), a.equals(IH.from_labels(other_rows)),
+                               a.equals(a.rename('x'), compare_name=True), a.equals(a.level_add('k')), a.equals(rows)))
+        if eqs != (True, True, False, False, False, False, False):
+            pr.append(f'equals(...) = {eqs}')
+        strd = [d for d in range(depth) if kinds[d] == 'str']
+        if len(strd) == depth:
+            vs = attempt(lambda: [tuple(r) for r in IH.from_labels(rows).via_str.upper().tolist()])
+            if vs != [tuple(x.upper() for x in r) for r in rows]:
+                pr.append(f'via_str.upper() = {str(vs)[:80]}')
+        if all(k == 'int' for k in kinds):
+            vt = attempt(lambda: (IH.from_labels(rows).via_T * tuple(range(1, n + 1))).tolist())      # one factor per ROW
+            if vt != [[x * (i + 1) for x in r] for i, r in enumerate(rows)]:
+                pr.append(f'via_T * (1..) = {str(vt)[:80]}')
+            un = attempt(lambda: (-IH.from_labels(rows)).tolist())
+            if un != [[-x for x in r] for r in rows]:
+                pr.append(f'-ih = {str(un)[:80]}')
+            sm = attempt(lambda: IH.from_labels(rows).sum(axis=1).tolist() if hasattr(IH, 'sum') else None)
+            if sm is not None and sm != [sum(r) for r in rows]:
+                pr.append(f'sum(axis=1) = {str(sm)[:80]}')
+        fg = attempt(lambda: [tuple(canon(x) for x in r) for r in IH.from_labels(rows).to_frame_go().values.tolist()])
+        if isinstance(fg, Exception) or [row_lit(r) for r in fg] != [row_lit(r) for r in rows]:
+            pr.append(f'to_frame_go() = {str(fg)[:80]}')
+        if n >= 2:
+            sl = attempt(lambda: canon_iloc(IH.from_labels(rows).loc_to_iloc(slice(tuple(rows[0]), tuple(rows[-2]))), n)[1])
+            if sl != list(range(0, n - 1)):
+                pr.append(f'loc_to_iloc(slice(first tuple, last-but-one tuple)) = {sl}')
+            ls = attempt(lambda: [int(x) for x in IH.from_labels(rows).loc_to_iloc([tuple(rows[-1]), tuple(rows[0])])])
+            if ls != [n - 1, 0]:
+                pr.append(f'loc_to_iloc([last tuple, first tuple]) = {ls}')
+            ihk = attempt(lambda: [int(x) for x in IH.from_labels(rows).loc_to_iloc(IH.from_labels(rows[1:]))])
+            if ihk != list(range(1, n)):
+                pr.append(f'loc_to_iloc(IndexHierarchy of the tail) = {ihk}')
+            il = attempt(lambda: IH.from_labels(rows).loc_to_iloc(sf.ILoc[-1]))
+            if il != -1:
+                pr.append(f'loc_to_iloc(ILoc[-1]) = {il}')
+            sser = attempt(lambda: [int(x) for x in sf.Series(range(n), index=IH.from_labels(rows)).loc[tuple(rows[0]):tuple(rows[1])].values])
+            if sser != [0, 1]:
+                pr.append(f'Series.loc[first tuple : second tuple] = {sser}')
+        bad = attempt(lambda: IH.from_labels(rows).loc_to_iloc(rows[0][0]))
+        if not isinstance(bad, KeyError):
+            pr.append(f'loc_to_iloc(bare label) = {bad!r}, a bare label is no tuple of the index')
+        yield simple('values-computed-their-own-way', rows, pr, observe='ih[i], IndexLevel.values, depths, unique(d), index_at_depth(d), index_types, equals, via_str, via_T, unary, to_frame_go, loc_to_iloc(slice of tuples / list of tuples / IndexHierarchy / ILoc / bare label)')
+        # --- zero-length hierarchies and growth from them
+        for nm, mk in (('from_names', lambda: IHGO.from_names(tuple(f'n{d}' for d in range(depth)))),
+                       ('from_labels((), depth_reference)', lambda: IHGO.from_labels((), depth_reference=depth)),
+                       ('from_labels(empty 2-D array)', lambda: IHGO.from_labels(np.empty((0, depth), dtype=object)))):
+            pr = []
+            g = attempt(mk)
+            if isinstance(g, Exception):
+                yield simple(nm, rows, [f'{nm} raised {type(g).__name__}: {g}'])
+                continue
+            z = attempt(lambda: (len(g), g.depth, tuple(g.shape), list(g), tuple(g.values.shape), [len(g.values_at_depth(d)) for d in range(depth)], tuple(rows[0]) in g))
+            if z != (0, depth, (0, depth), [], (0, depth), [0] * depth, False):
+                pr.append(f'zero-length views (len, depth, shape, list, values.shape, values_at_depth lens, in) = {z}')
+            yield simple(nm, rows, pr)
+            g = attempt(mk)
+            grown = attempt(lambda: [g.append(tuple(r)) for r in rows])
+            if isinstance(grown, Exception):
+                yield simple(nm + ' then appends', rows, [f'append raised {type(grown).__name__}: {grown}'])
+            else:
+                yield derived_case(ctx, nm + ' then appends', g, [tuple(r) for r in rows], stratum, ex(nm + ' then appends', rows), canonical_tree=True)
+        # --- rejected extends leave the object as it was
+        g = IHGO.from_labels(rows)
+        bad_ops = [('extend(other depth)', lambda: g.extend(IH.from_labels([tuple(r) + ('q',) for r in rows]))),
+                   ('extend(same outer labels)', lambda: g.extend(IH.from_labels(rows))),
+                   ('append(existing)', lambda: g.append(tuple(rows[0]))),
+                   ('append(too short)', lambda: g.append(tuple(rows[0][:-1])))]
+        for nm, op in bad_ops:
+            r_ = attempt(op)
+            if not isinstance(r_, Exception):
+                yield simple(nm, rows, [f'{nm} was accepted'])
+                break
+            yield derived_case(ctx, nm + ' rejected', g, [tuple(r) for r in rows], stratum, ex(nm, rows, raised=lit.err_class(r_)), canonical_tree=True)
+    # --- fixed small routes (each reached once per run)
+    r4 = [('a', 1), ('a', 3), ('b', 2), ('c', 1)]
+    ih4 = IH.from_labels(r4)
+    checks = [
+        ('iter_label(0).apply', lambda: IH.from_labels(r4).iter_label(0).apply(lambda x: x + '!').tolist(), ['a!', 'a!', 'b!', 'c!']),
+        ('iter_label(1).apply_iter_items', lambda: [(int(i), int(v)) for i, v in IH.from_labels(r4).iter_label(1).apply_iter_items(lambda x: x * 2)], [(0, 2), (1, 6), (2, 4), (3, 2)]),
+        ('iter_label(1).apply after values', lambda: (lambda a: (a.values, a.iter_label(1).apply(lambda x: x * 2).tolist())[1])(IH.from_labels(r4)), [2, 6, 4, 2]),
+        ('ndim', lambda: ih4.ndim, 2),
+        ('mloc is an array of the depth', lambda: len(IH.from_labels(r4).mloc), 2),
+        ('display(type_show=False)', lambda: [ln.split() for ln in str(IH.from_labels(r4).display(sf.DisplayConfig(type_show=False))).split('\n')], [[str(x) for x in r] for r in r4]),
+        ('union(equal) is the index', lambda: [tuple(canon(x) for x in r) for r in ih4.union(IH.from_labels(r4))], r4),
+        ('difference(equal) is empty, depth kept', lambda: (lambda d: (len(d), d.depth, list(d)))(ih4.difference(IH.from_labels(r4))), (0, 2, [])),
+        ('intersection(equal)', lambda: [tuple(canon(x) for x in r) for r in IHGO.from_labels(r4).intersection(IH.from_labels(r4))], r4),
+        ('union(2-D array)', lambda: sorted(tuple(canon(x) for x in r) for r in ih4.union(np.array([['d', 1], ['a', 1]], dtype=object))), sorted(r4 + [('d', 1)])),
+        ('union(iterable of tuples)', lambda: sorted(tuple(canon(x) for x in r) for r in ih4.union([('d', 1), ('a', 1)])), sorted(r4 + [('d', 1)])),
+        ('union(other depth) raises', lambda: lit.err_class(attempt(lambda: ih4.union(IH.from_labels([('a', 1, 'x')])))), 'ErrorInitIndex'),
+        ('_drop_loc(tuple)', lambda: [tuple(canon(x) for x in r) for r in IH.from_labels(r4)._drop_loc(('a', 3))], [r4[0], r4[2], r4[3]]),
+        ('_drop_loc(HLoc)', lambda: [tuple(canon(x) for x in r) for r in IH.from_labels(r4)._drop_loc(sf.HLoc['a'])], r4[2:]),
+        ('_drop_iloc(list) on GO after append', lambda: (lambda g: (g.values, g.append(('c', 2)), [tuple(canon(x) for x in r) for r in g._drop_iloc([0, 1])])[2])(IHGO.from_labels(r4)), r4[2:] + [('c', 2)]),
+        ('-ih', lambda: (-IH.from_labels([(1, 2), (3, 4)])).tolist(), [[-1, -2], [-3, -4]]),
+        ('ih == ih2 elementwise', lambda: (IH.from_labels([(1, 2), (3, 4)]) == IH.from_labels([(1, 2), (3, 5)])).tolist(), [[True, True], [True, False]]),
+        ('GO after append == values (table refreshed for both operands)', lambda: (lambda g, h: (g.values, h.values, g.append((5, 6)), h.append((5, 6)), (g == h).tolist())[4])(IHGO.from_labels([(1, 2), (3, 4)]), IHGO.from_labels([(1, 2), (3, 4)])), [[True, True]] * 3),
+        ('ih * Index', lambda: (IH.from_labels([(1, 2), (3, 4)]) * sf.Index((10, 100))).tolist(), [[10, 200], [30, 400]]),
+        ('ih @ vector', lambda: (IH.from_labels([(1, 2), (3, 4)]) @ np.array([1, 1])).tolist(), [3, 7]),
+        ('via_T * per-row factors', lambda: (IH.from_labels([(1, 2), (3, 4), (5, 6)]).via_T * (1, 10, 100)).tolist(), [[1, 2], [30, 40], [500, 600]]),
+        ('via_dt.year', lambda: IH.from_labels([(np.datetime64('2020-01-01'), np.datetime64('2021-03-02')), (np.datetime64('2022-01-01'), np.datetime64('2021-03-05'))]).via_dt.year.tolist(), [[2020, 2021], [2022, 2021]]),
+        ('via_str.upper on GO after append', lambda: (lambda g: (g.values, g.append(('c', 'z')), g.via_str.upper().tolist())[2])(IHGO.from_labels([('a', 'x'), ('b', 'y')])), [['A', 'X'], ['B', 'Y'], ['C', 'Z']]),
+        ('unique([0, 1])', lambda: [tuple(x) for x in IH.from_labels([('a', 1, 'x'), ('a', 1, 'y'), ('b', 1, 'x')]).unique([0, 1]).tolist()], [('a', 1), ('b', 1)]),
+        ('unique([2])', lambda: IH.from_labels([('a', 1, 'x'), ('a', 1, 'y'), ('b', 1, 'x')]).unique([2]).tolist(), ['x', 'y']),
+        ('sample keeps index order and views', lambda: (lambda smp: (len(smp), all(tuple(canon(x) for x in r) in r4 for r in smp), [tuple(canon(x) for x in r) for r in smp] == [tuple(canon(x) for x in r) for r in smp.values.tolist()],
+                                                                     [r4.index(tuple(canon(x) for x in r)) for r in smp] == sorted(r4.index(tuple(canon(x) for x in r)) for r in smp)))(IH.from_labels(r4).sample(2, seed=3)), (2, True, True, True)),
+        ('iloc_searchsorted', lambda: (int(IH.from_labels([('a', 1), ('a', 3), ('b', 2)]).iloc_searchsorted(('a', 2))), IH.from_labels([('a', 1), ('a', 3), ('b', 2)]).iloc_searchsorted([('a', 2), ('c', 0)]).tolist()), (1, [1, 3])),
+        ('loc_searchsorted', lambda: tuple(canon(x) for x in IH.from_labels([('a', 1), ('a', 3), ('b', 2)]).loc_searchsorted(('a', 2))), ('a', 3)),
+        ('level_drop(1) to a flat Index', lambda: (lambda i: (type(i).__name__, i.values.tolist()))(IH.from_labels([('a', 1), ('a', 3), ('b', 2)]).level_drop(1)), ('Index', [1, 3, 2])),
+        ('level_drop(-1) to a flat Index', lambda: (lambda i: (type(i).__name__, i.values.tolist()))(IH.from_labels([('a', 1), ('b', 2)]).level_drop(-1)), ('Index', ['a', 'b'])),
+        ('level_drop names', lambda: (lambda mk: (mk().level_drop(1).name, mk().level_drop(-1).name, mk().level_drop(-2).name))(lambda: IH.from_labels([('a', 1, 'x'), ('b', 2, 'y')], name=('p', 'q', 'r'))), (('q', 'r'), ('p', 'q'), 'p')),
+        ('level_drop(0) raises', lambda: lit.err_class(attempt(lambda: ih4.level_drop(0))), 'NotImplementedError'),
+        ('HLoc len / default', lambda: (len(sf.HLoc['a', 1]), sf.HLoc['a'][3]), (2, slice(None))),
+        ('IndexLevel.loc_to_iloc(Boolean array)', lambda: ih4._levels.loc_to_iloc(np.array([True, False, True, False])).tolist(), [True, False, True, False]),
+        ('IndexLevel.equals(other class / length / depth)', lambda: (ih4._levels.equals(ih4._levels), ih4._levels.equals(IHGO.from_labels(r4)._levels, compare_class=True), ih4._levels.equals(3),
+                                                                     ih4._levels.equals(IH.from_labels(r4[:3])._levels), ih4._levels.equals(IH.from_labels([r + ('x',) for r in r4])._levels),
+                                                                     ih4._levels.equals(IH.from_labels([('a', 1), ('a', 3), ('b', 2), ('c', 9)])._levels)), (True, False, False, False, False, False)),
+    ]
+    errors = [
+        ('from_labels(reorder, continuation_token)', lambda: IH.from_labels(r4, reorder_for_hierarchy=True, continuation_token=None), 'RuntimeError'),
+        ('from_labels(index_constructors of other length)', lambda: IH.from_labels(r4, index_constructors=[sf.Index]), 'ErrorInitIndex'),
+        ('from_labels(depth 1)', lambda: IH.from_labels([('a',), ('b',)]), 'ErrorInitIndex'),
+        ('from_labels(empty array, other depth_reference)', lambda: IH.from_labels(np.empty((0, 3)), depth_reference=2), 'ErrorInitIndex'),
+        ('from_labels_delimited(one label)', lambda: IH.from_labels_delimited(['a']), 'RuntimeError'),
+        ('from_labels_delimited(unquoted)', lambda: IH.from_labels_delimited(['a 1']), 'ValueError'),
+        ('IndexHierarchy(ih, blocks=)', lambda: IH(ih4, blocks=IH.from_labels(r4)._levels.to_type_blocks()), 'ErrorInitIndex'),
+        ('IndexHierarchy(list)', lambda: IH([1, 2]), 'NotImplementedError'),
+        ('IndexHierarchy(depth-1 levels)', lambda: IH(sf.IndexLevel(sf.Index(('a', 'b')))), 'ErrorInitIndex'),
+        ('from_product(one level)', lambda: IH.from_product(('a', 'b')), 'RuntimeError'),
+        ('IndexLevelGO.extend(leaf level)', lambda: IHGO.from_labels(r4)._levels.extend(sf.IndexLevel(sf.Index(('z',)))), 'RuntimeError'),
+        ('extend(other index classes)', lambda: IHGO.from_labels(r4).extend(IH.from_labels([('z', '2020-01-01')], index_constructors=[sf.Index, sf.IndexDate])), 'RuntimeError'),
+        ('loc_to_iloc(HLoc of absent label)', lambda: ih4.loc_to_iloc(sf.HLoc['zz']), 'KeyError'),
+        ('loc_to_iloc(slice with absent tuple)', lambda: ih4.loc_to_iloc(slice(('a', 1), ('zz', 1))), 'KeyError'),
+    ]
+    for nm, fn, expect in checks:
+        got = attempt(fn)
+        ok = (not isinstance(got, Exception)) and (got == expect or (isinstance(expect, list) and list(got) == expect))
+        yield simple(nm, r4, [] if ok else [f'{nm}: got {got!r}, the tuples demand {expect!r}'])
+    for nm, fn, cls in errors:
+        got = attempt(fn)
+        okc = isinstance(got, Exception) and lit.err_class(got) == cls
+        yield simple(nm + ' is rejected', r4, [] if okc else [f'{nm}: got {got!r}, a {cls} is demanded (no hierarchy denotes that input)'])
+    # --- labels that are themselves tuples (object level)
+    trows = [(('p', 1), 'x'), (('p', 1), 'y'), (('q', 2), 'x')]
+    t = attempt(lambda: IH.from_labels(trows))
+    pr = []
+    if isinstance(t, Exception):
+        pr.append(f'from_labels with tuple labels raised {type(t).__name__}')
+    else:
+        z = attempt(lambda: ([tuple(r) for r in t], [tuple(x) for x in t.values_at_depth(0).tolist()], [tuple(r) for r in t.values.tolist()], len(t), (('q', 2), 'x') in t, t.loc_to_iloc((('q', 2), 'x'))))
+        if z != (trows, [r[0] for r in trows], trows, 3, True, 2):
+            pr.append(f'views of a hierarchy whose outer labels are tuples: {str(z)[:200]}')
+    yield simple('tuple-labels', trows, pr)
+
+
+def auto_int_leaf_cases(ctx):
+    '''Hierarchies whose leaves are AUTO-INTEGER indices (loc_is_iloc: `_map is None`), as IndexHierarchy.from_index_items /
+    Frame.from_concat_items build them from the default indices of frames: Index._loc_to_iloc then takes its own branch
+    (index.py:947-979) -- no label map, no membership test.'''
+    import static_frame as sf
+    rng = ctx.rng
+    shapes = [(3, 2), (2, 4, 1), (1, 3)] + [tuple(rng.randint(1, 4) for _ in range(rng.randint(2, 3))) for _ in range(ctx.n(2, 12))]
+    for lens in shapes:
+        outer = POOLS['str'][:len(lens)]
+        frames = [sf.Frame(np.arange(k * 2).reshape(k, 2) + 100 * i) for i, k in enumerate(lens)]
+        rows = [(o, j) for o, k in zip(outer, lens) for j in range(k)]
+        n = len(rows)
+        for cls_name, mk in (('from_index_items', lambda: sf.IndexHierarchy.from_index_items(zip(outer, (f.index for f in frames)))),
+                             ('from_concat_items.index', lambda: sf.Frame.from_concat_items(zip(outer, frames)).index)):
+            ih = mk()
+            if any(l.index._map is not None for l in ih._levels.targets):
+                continue
+            tree = tree_of(ih._levels)
+            yield from observe_views(ctx, ih, rows, 'auto-int:' + cls_name)
+            lo = min(lens)
+            keys = []
+            for o_sel in ([('all',)] + [('one', o) for o in outer[:2]]):
+                present = [('one', 0), ('one', lo - 1), ('list', list(range(lo))[::-1]), ('slice', 0, lo - 1), ('all',)]
+                if lo > 1:
+                    present.append(('step', lo - 1, 0, -1))
+                risky = [('one', lo), ('one', max(lens)), ('list', [0, lo]), ('slice', 0, None), ('slice', None, 0), ('slice', 1, None), ('slice', 0, lo)]
+                keys += [([o_sel, s_], False) for s_ in present] + [([o_sel, s_], True) for s_ in risky]
+            for key, risky in keys:
+                # an explicit outer label narrows the visited leaves: then the class is decided by that leaf alone
+                c = hloc_case(ctx, ih, tree, rows, key, 'auto-int:' + cls_name, stratum='api:hloc:auto-int-leaves')
+                c.m = None           # M models the label-map branch of Index._loc_to_iloc, not the loc_is_iloc branch
+                if risky:
+                    c.tags['finding'] = 'C05-hloc-auto-integer-leaf'
+                yield c
+            ks = [(o, j) for o in outer for j in (0, lo, max(lens))]
+            kl = lit.lst([row_lit(k) for k in ks])
+            got_in = [bool(k in ih) for k in ks]
+            outs = [res_lit(lambda k=k: ih.loc_to_iloc(k), lambda v: lit.z(int(v)))[0] for k in ks]
+            yield Case('api:hloc:auto-int-leaves:tuple', {'route': cls_name, 'rows': [[jl(x) for x in r] for r in rows], 'keys': [[jl(x) for x in k] for k in ks], 'observed': [got_in, outs]},
+                       s=f'check_contains_S {rows_lit(rows)} {kl} {bl(got_in)} && check_lookup_S {rows_lit(rows)} {kl} {lit.lst(outs)}',
+                       tags={'route': cls_name, 'op': 'auto-int-tuple'}, key=f'autoint-tuple|{cls_name}|{rows_lit(rows)}')
+
+
 def go_cases(ctx):
     rng = ctx.rng
+    yield from auto_int_leaf_cases(ctx)
+    yield from route_cases(ctx)
     yield from date_history_cases(ctx)
     yield from first_read_cases(ctx)
     yield from short_history_cases(ctx)
